@@ -151,7 +151,7 @@ def correspond(ctx):
 def potable_corpus(full):
     """fixed potable cases: every target with the failure in every kind of function (full), or in its second pair potential (the first is written whole)"""
     wheres = {'pair': ['pair'], 'eam': ['pair', 'embed', 'density'], 'fs': ['pair', 'embed', 'density'], 'adp': ['pair', 'embed', 'density', 'dipole', 'quadrupole']}
-    return [{'potable_fault': True, 'target': t, 'where': w, 'frac': 0.5} for t in sorted(TARGET_MODELS) for w in (wheres[TARGET_MODELS[t]] if full else ['pair'])]
+    return [{'potable_fault': True, 'target': t, 'where': w, 'frac': 0.5} for t in sorted(TARGET_MODELS) for w in (wheres[TARGET_MODELS[t]] if (full or t in ('eam_adp', 'setfl', 'DL_POLY_EAM_fs')) else ['pair'])]
 
 def search_cases(rng, n):
     for c in potable_corpus(True): yield c
